@@ -182,10 +182,30 @@ func drawC11Spec(t *rapid.T, label string, interop bool) c11Spec {
 	return s
 }
 
+// c11ExactConfigs returns valid configs (ids 0,1,2,..., 100-byte names, the last one with
+// an nl-byte name) whose encodings total exactly P bytes; k is the index of the last one.
+func c11ExactConfigs(t *rapid.T, P int) (many []ech.Config, k, nl int) {
+	mk := func(id uint8, nl int) ech.Config {
+		c, err := ech.ConfigSpec{Version: 0xfe0d, ID: id, KEM: 0x20, PublicKey: bytes.Repeat([]byte{id}, 32), CipherSuites: []ech.CipherSuite{{KDF: 1, AEAD: 1}}, PublicName: bytes.Repeat([]byte("m"), nl)}.Bytes()
+		if err != nil {
+			ev.Violation(t, "C11", map[string]any{"name_len": nl}, "Bytes failed for a valid spec: %v", err)
+		}
+		return c
+	}
+	L := len(mk(0, 100))
+	k = (P - (L - 100) - 1) / L
+	nl = P - k*L - (L - 100)
+	for i := 0; i < k; i++ {
+		many = append(many, mk(uint8(i), 100))
+	}
+	many = append(many, mk(uint8(k), nl))
+	return many, k, nl
+}
+
 func TestC11(t *testing.T) {
 	rec := ev.Get("C11")
 	rec.Rule("ConfigSpecs: id 0..255, KEM ids, public keys of 0..200 bytes and of 255..20000 bytes (valid X25519 points for interop cases), 0..8 cipher suites incl. unknown ids, public names of 1..255 bytes (and invalid lengths 0, 256..300), lists of 0..6 configs, and lists sized around the 65535-byte limit of the length prefix (largest that fits / one more / many more), lists with an exact payload length (values that are tags elsewhere in the format, e.g. 0xfe0d, and uniform 400..65535). Oracles: harness decoder written from draft section 4 reads Bytes() and agrees field by field; Spec()/ParseConfigList return the generated specs in order; harness-encoded configs parse to the same fields (both directions); crypto/tls client+server accept interop configs (outer SNI = public name, config id named, ECHAccepted on both sides); every strict prefix of a valid list is rejected; trailing bytes beyond declared lengths do not change the result; length fields +-1 never panic; one length field of a valid config changed by -4..+200: no panic and the result (acceptance and fields) is independent of every byte beyond the config's declared length, stand-alone and inside a list. distinct = encoding hash; non-trivial = name length not in {11,18} or id != 1 or non-default suites")
-	rec.Mandatory("suites_cut_mid_suite", "name_len1", "name_len239", "name_len240", "name_len255", "list0", "list_ge3", "interop", "single_suite_aead1", "single_suite_aead2", "single_suite_aead3", "invalid_name_len", "prefix_rejected", "newconfig", "lenfield:contents_length", "lenfield:public_key_length", "lenfield:cipher_suites_length", "lenfield:public_name_length", "lenfield:extensions_length", "list_around_64k", "unknown_version_entry", "payload_len_equals_version_tag")
+	rec.Mandatory("suites_cut_mid_suite", "name_len1", "name_len239", "name_len240", "name_len255", "list0", "list_ge3", "interop", "single_suite_aead1", "single_suite_aead2", "single_suite_aead3", "invalid_name_len", "prefix_rejected", "newconfig", "lenfield:contents_length", "lenfield:public_key_length", "lenfield:cipher_suites_length", "lenfield:public_name_length", "lenfield:extensions_length", "list_around_64k", "unknown_version_entry", "payload_len_equals_version_tag", "trailing_64k_of_configs")
 	rapid.Check(t, func(t *rapid.T) {
 		interop := rapid.IntRange(0, 9).Draw(t, "interop") == 0
 		n := rapid.IntRange(0, 6).Draw(t, "nconfigs")
@@ -308,6 +328,19 @@ func TestC11(t *testing.T) {
 			cl = append(cl, "prefix_rejected")
 			// trailing garbage after the declared list length does not change the result
 			junk := hello.GenBytes(t, "junk", rapid.IntRange(1, 20).Draw(t, "junklen"))
+			if rapid.IntRange(0, 19).Draw(t, "junk_64k") == 0 {
+				// the caller's buffer holds a multiple of 65536 more bytes, all of them
+				// well-formed configs: lengths compared modulo 2^16 would take them for the list
+				more, _, _ := c11ExactConfigs(t, 65536*rapid.IntRange(1, 2).Draw(t, "junk_64k_times"))
+				junk = bytes.Join(func() [][]byte {
+					var bs [][]byte
+					for _, c := range more {
+						bs = append(bs, c)
+					}
+					return bs
+				}(), nil)
+				cl = append(cl, "trailing_64k_of_configs")
+			}
 			var p2 []ech.ConfigSpec
 			e = guard(func() error {
 				var e error
@@ -488,27 +521,13 @@ func TestC11(t *testing.T) {
 			if rapid.IntRange(0, 3).Draw(t, "exact_payload_any") == 0 {
 				P = 400 + uniform(t, "exact_payload_uniform", 65136)
 			}
-			mk := func(id uint8, nl int) ech.Config {
-				c, err := ech.ConfigSpec{Version: 0xfe0d, ID: id, KEM: 0x20, PublicKey: bytes.Repeat([]byte{id}, 32), CipherSuites: []ech.CipherSuite{{KDF: 1, AEAD: 1}}, PublicName: bytes.Repeat([]byte("m"), nl)}.Bytes()
-				if err != nil {
-					ev.Violation(t, "C11", map[string]any{"name_len": nl}, "Bytes failed for a valid spec: %v", err)
-				}
-				return c
-			}
-			L := len(mk(0, 100))
-			k := (P - (L - 100) - 1) / L
-			nl := P - k*L - (L - 100)
-			var many []ech.Config
-			for i := 0; i < k; i++ {
-				many = append(many, mk(uint8(i), 100))
-			}
-			many = append(many, mk(uint8(k), nl))
+			many, k, nl := c11ExactConfigs(t, P)
 			var l []byte
 			if e := guard(func() error { var e error; l, e = ech.ConfigList(many); return e }); e != nil {
 				ev.Violation(t, "C11", map[string]any{"configs": len(many), "payload": P}, "ConfigList refused a list with %d bytes of payload: %v", P, e)
 			}
 			if len(l) != P+2 {
-				t.Fatalf("harness: built %d bytes of payload, wanted %d (L=%d k=%d nl=%d)", len(l)-2, P, L, k, nl)
+				t.Fatalf("harness: built %d bytes of payload, wanted %d (k=%d nl=%d)", len(l)-2, P, k, nl)
 			}
 			var ps []ech.ConfigSpec
 			e := guard(func() error { var e error; ps, e = ech.ParseConfigList(l); return e })
@@ -525,7 +544,7 @@ func TestC11(t *testing.T) {
 				}
 			}
 			if P == 0xfe0d {
-				cl = append(cl, "payload_len_equals_version_tag")
+				cl = append(cl, "payload_len_equals_version_tag", "trailing_64k_of_configs")
 			}
 		}
 		// (7) an entry of a version this code does not know, whose opaque body happens to hold the
